@@ -112,6 +112,7 @@ def check(ctx):
         stage.stop()
     judge(ctx, all_cases, all_results)
     ctx.coverage['end_to_end'] = e2e(ctx)
+    ctx.coverage['encryptor'] = encryptor_cases(ctx)
 
 
 def e2e(ctx):
@@ -214,6 +215,60 @@ def e2e(ctx):
         finally:
             e.close()
     return stats
+
+
+def encryptor_cases(ctx):
+    """The real `Encryptor` (gpg child, stdout/stderr readers, close/finish/Drop) with stand-ins for gpg that end
+    in every way, against the decision model `readerResult` + `close`: which terminal message reaches the data
+    channel, and that there is exactly one."""
+    import os
+    from props import upload_common as uc
+    base = os.path.join(ctx.scratch_dir(), 'enc')
+    os.makedirs(base, exist_ok=True)
+    home = uc.make_gnupghome(base)
+    modes = {
+        'ok': ('exec /usr/bin/gpg "$@"', {'exit': {'code': 0}}),
+        'exit2': ('/usr/bin/gpg "$@"; exit 2', {'exit': {'code': 2}}),
+        'signal': ('/usr/bin/gpg "$@"; kill -KILL $$', {'exit': {'signal': 9}}),
+        'stderr': ('/usr/bin/gpg "$@"; echo "gpg: some warning" >&2', {'exit': {'code': 0}, 'stderr_empty': False}),
+        'sigterm-early': ('head -c 10 >/dev/null; kill -TERM $$', {'exit': {'signal': 15}}),
+    }
+    n = bad = 0
+    try:
+        for mode, (body, mj) in modes.items():
+            d = os.path.join(base, 'bin-' + mode)
+            os.makedirs(d, exist_ok=True)
+            with open(os.path.join(d, 'gpg'), 'w') as f:
+                f.write('#!/bin/bash\n' + body + '\n')
+            os.chmod(os.path.join(d, 'gpg'), 0o755)
+            for caller in ('ok', 'err', 'drop'):
+                for size in ([0, 5000] if ctx.tier == 'quick' else [0, 1, 5000, 300000]):
+                    if mode == 'sigterm-early' and size > 60000:
+                        continue     # (a large write to a dead gpg is the EPIPE path, covered by the end-to-end runs)
+                    real = core.run_lines(core.harness_exe(ctx), [core.req('encrun', {'path': d + ':/usr/bin:/bin', 'size': size, 'caller': caller})],
+                                          env=dict(os.environ, GNUPGHOME=home), timeout=60)[0]
+                    model = core.run_lines(core.model_exe(), [core.req('encclose', dict(mj, caller_ok=(caller == 'ok'), flush_ok=True, read_ok=True))])[0]
+                    n += 1
+                    case = {'gpg': mode, 'caller': caller, 'size': size}
+                    if not isinstance(real, dict) or 'terminal' not in real:
+                        ctx.violation('runtime', 'the encryptor did not finish: %s' % str(real)[:200], {'case': case})
+                        continue
+                    healthy = mode == 'ok' and caller == 'ok'
+                    if (real['terminal'] == 'eof') != healthy:
+                        bad += 1
+                        ctx.violation('property', 'the encryptor ended the stream with %s although %s [gpg stand-in %s, caller %s, %d bytes]'
+                                      % (real['terminal'], 'everything succeeded' if healthy else 'gpg or the caller failed', mode, caller, size), {'case': case})
+                    if real['terminal'] == 'none' or real['messages_after_terminal']:
+                        ctx.violation('property', 'not exactly one terminal message on the data channel (%s, %d messages after it)'
+                                      % (real['terminal'], real['messages_after_terminal']), {'case': case})
+                    mt = model.get('terminal') if isinstance(model, dict) else None
+                    if mt != real['terminal'] and not (real.get('write_error') and real['terminal'] == 'err'):
+                        bad += 1
+                        ctx.violation('correspondence', 'encryptor model says %s, implementation %s [gpg stand-in %s, caller %s]' % (mt, real['terminal'], mode, caller),
+                                      {'case': case}, found_input=False)
+    finally:
+        uc.kill_agent(home)
+    return {'cases': n, 'failures': bad}
 
 
 def run_cases(ctx, stage, cases):
